@@ -25,7 +25,8 @@
                                               to the lifecycles of the final table
      {"ev":"joined","stage":s}                 thread s ended within the bound (>= 30 s) after eos / drop
      {"ev":"end"}                              end of the case
-     {"ev":"join_timeout","stage":s} / {"ev":"recv_timeout"} / {"ev":"panic","stage":s,"msg":..}    no action matches
+     {"ev":"join_timeout","stage":s} / {"ev":"stalled","after":k,"style":c} (no message and no end of stream within the
+                                              bound, whatever way the consumer waits) / {"ev":"panic",..}    no action matches
 
    The contract is the property.  Lifecycle ids come from a process-global counter, so "same" means equal up to an
    injective renaming of ids, built here message by message (lcmap: run id -> reference id).
